@@ -16,6 +16,15 @@ import (
 
 const Root = "/verif"
 
+// outRoot: where evidence and replays go. /verif, unless a development run against a scratch copy of the repository
+// (seedtest.sh) redirects its output so that it cannot overwrite the evidence of the real tree.
+func outRoot() string {
+	if d := os.Getenv("VERIF_OUT"); d != "" {
+		return d
+	}
+	return Root
+}
+
 type Finding struct {
 	Property  string `json:"property"`
 	Signature string `json:"signature"`
@@ -178,7 +187,7 @@ func (c *Ctx) Report(sig, what string, replay interface{}) {
 	if replay != nil {
 		bz, _ := json.MarshalIndent(map[string]interface{}{"property": c.ID, "signature": sig, "what": what, "case": replay}, "", " ")
 		h := sha256.Sum256(bz)
-		path = filepath.Join(Root, "replays", fmt.Sprintf("%s-%s.json", c.ID, hex.EncodeToString(h[:6])))
+		path = filepath.Join(outRoot(), "replays", fmt.Sprintf("%s-%s.json", c.ID, hex.EncodeToString(h[:6])))
 		_ = os.MkdirAll(filepath.Dir(path), 0o755)
 		_ = os.WriteFile(path, bz, 0o644)
 	}
@@ -256,8 +265,8 @@ func (c *Ctx) Finish() int {
 		"assumptions": append([]string{}, c.Assumptions...), "wall_s": wall, "violations": len(c.violations),
 	}
 	bz, _ := json.MarshalIndent(evd, "", " ")
-	_ = os.MkdirAll(filepath.Join(Root, "evidence"), 0o755)
-	if err := os.WriteFile(filepath.Join(Root, "evidence", c.ID+".json"), bz, 0o644); err != nil {
+	_ = os.MkdirAll(filepath.Join(outRoot(), "evidence"), 0o755)
+	if err := os.WriteFile(filepath.Join(outRoot(), "evidence", c.ID+".json"), bz, 0o644); err != nil {
 		fmt.Println("harness error: cannot write evidence:", err)
 		return 2
 	}
